@@ -96,6 +96,17 @@ def cases(tier, rng, run):
         vals = ";".join(p.slots[0].val() for p in c.params)
         for order in ("0.1", "1.0"):
             out.append(Case("PYD\tva=0\t" + "\t".join(fields) + f"\tN|{order}|{vals}", "rebind"))
+    # several declared scalar types, the union written inside np.dtype[...] or one level up, the contradicting one in any position
+    for c in translate.CLASSES:
+        oks = [d for d in NP_SCALARS if acc(c, "0:" + d)]
+        bads = [d for d in NP_SCALARS if not acc(c, "0:" + d)]
+        for base in ("nd", "ndu"):
+            if oks and bads:
+                b0 = rng.choice(bads)
+                for decl in ([oks[0], b0], [b0, oks[0]], [oks[0], oks[-1], b0]):
+                    out.append(Case(f"PYD\tva=0\tF|x|{base}=" + "+".join("0:" + d for d in decl) + f"|{c},0,a b", "classdef2", {"want": "reject"}))
+            if len(oks) >= 2:
+                out.append(Case(f"PYD\tva=0\tF|x|{base}=0:{oks[0]}+0:{oks[1]}|{c},0,a b", "classdef2", {"want": "ok"}))
     for _ in range(2500 if tier == "quick" else 40000):
         l = gen_line(rng)
         if rng.random() < 0.3:
@@ -155,9 +166,9 @@ def judge(case, impl_out, spec):
         return None
     if case.tag == "classdef2":
         if case.meta["want"] == "reject" and not impl_out.startswith("classdef reject dtype"):
-            return f"two fields share one annotation object; the declared scalar type of one of them contradicts the class, but the class definition gives {impl_out!r}"
+            return f"one of the scalar types the numpy base type of a field declares contradicts the class, but the class definition gives {impl_out!r}"
         if case.meta["want"] == "ok" and impl_out.startswith("classdef"):
-            return f"two fields share one annotation object; both declared scalar types are accepted by the class, but: {impl_out!r}"
+            return f"every scalar type the numpy base types declare is accepted by the class, but: {impl_out!r}"
         return None
     parts = impl_out.split(" ## ")
     if not impl_out.startswith("classdef"):
